@@ -135,6 +135,8 @@ def run(kinds, stop=False, trace=None):
         return {'ok': False, 'ev': b.ev, 'errors': [err_sig(x) for x in e.errors], 'calls': m.calls, 'reads': sc.reads}
     except ParserException as e:
         return {'ok': False, 'ev': b.ev, 'errors': [err_sig(e)], 'calls': m.calls, 'reads': sc.reads, 'single': True}
+    except Exception as e:  # noqa: BLE001 - the parse loop itself failed
+        return {'ok': False, 'ev': b.ev, 'errors': [(None, type(e).__name__, str(e))], 'calls': m.calls, 'reads': sc.reads, 'crash': '%s: %s' % (type(e).__name__, e)}
 
 
 def step(state, kind, ahead, stop=False):
@@ -146,7 +148,11 @@ def step(state, kind, ahead, stop=False):
     sc = StubScanner(list(ahead), first_line=100)
     ctx = ParserContext(sc, m, deque(), [])
     tok = Token('', {'line': 99}) if kind == 'EOF' else Token(StubLine(kind, 99), {'line': 99})
-    to = p.match_token(state, tok, ctx)
+    try:
+        to = p.match_token(state, tok, ctx)
+    except Exception as e:  # noqa: BLE001
+        return {'to': None, 'ev': tuple(e2[:2] for e2 in b.ev), 'errors': (('crash', '%s: %s' % (type(e).__name__, e)),), 'queue': (), 'qlines': (),
+                'reads': 0, 'calls': m.calls, 'crash': '%s: %s' % (type(e).__name__, e)}
     q = tuple(('EOF' if t.eof() else t.line.kind) for t in ctx.token_queue)
     qlines = tuple(t.location['line'] for t in ctx.token_queue)
     return {'to': to, 'ev': tuple(e[:2] for e in b.ev), 'errors': tuple(err_sig(e)[1:] for e in ctx.errors),
